@@ -1,5 +1,22 @@
 /-
 C18 — a Viewer scene contains everything added, where it was added.
+
+The theorems are about Model/Viewer.lean (the model of viewer.rs; the correspondence run compares
+the scene tree after every generated history with the crate's, and the Lean oracle checks every
+edge cylinder and every sphere of it geometrically).  They hold for every history of `add_*`
+calls, of any length, with arbitrary (also empty) arguments:
+
+* the scene only grows: after any call the previous scene is still there, unchanged, as the first
+  child on the spine of unions (`Extends`), so every item of every earlier call is retained, in
+  order (`step_extends`, `history_extends`);
+* the radii and the segment count never change (`step_consts`);
+* what the point adders add is exactly a sphere of the point radius, with `$fn` = the viewer's
+  segment count, in the requested colour, translated to the point (`addPt3_item`, …), and the list
+  adders add one group holding one such item per element, in order (`addPt3s_item`,
+  `addLines3d_item`: one edge mesh per edge).
+
+PARTIAL: that an edge mesh is a closed cylinder running from start to end is geometry of
+`look_at_matrix_lh` and of the C04 mesh builder; it is checked by the oracle on every edge.
 -/
 import ScadVerif.Lemmas.PtReal
 import ScadVerif.Model.Viewer
@@ -12,5 +29,231 @@ noncomputable instance : HasTrunc ℝ := ⟨fun x => ⌊x⌋₊⟩
 /-- after any `add_*` call the viewer has a scene -/
 theorem push_some (st : State ℝ) (s : Scad ℝ) : (push st s).scad.isSome = true := by simp [push]
 theorem pushGroup_some (st : State ℝ) (s : Scad ℝ) : (pushGroup st s).scad.isSome = true := by simp [pushGroup]
+
+/-- `new` is `old` with items added: `old` sits, unchanged, at the end of the first-child spine of
+unions, each union adding one item to its right -/
+inductive Extends : Scad ℝ → Scad ℝ → Prop
+  | refl (s : Scad ℝ) : Extends s s
+  | item (old mid x : Scad ℝ) : Extends old mid → Extends old (Scad.node .union [mid, x])
+
+theorem Extends.trans {a b c : Scad ℝ} (h1 : Extends a b) (h2 : Extends b c) : Extends a c := by
+  induction h2 with
+  | refl => exact h1
+  | item mid x _ ih => exact Extends.item _ _ _ ih
+
+/-- the constants of a viewer -/
+def consts (st : State ℝ) : ℝ × ℝ × Nat := (st.pointRadius, st.edgeRadius, st.segments)
+
+/-- `st'` is `st` after some calls: same constants, a scene is present, and the previous scene (if
+any) is retained -/
+def Grows (st st' : State ℝ) : Prop :=
+  consts st' = consts st ∧ ∀ old, st.scad = some old → ∃ new, st'.scad = some new ∧ Extends old new
+
+theorem Grows.refl (st : State ℝ) : Grows st st := ⟨rfl, fun old h => ⟨old, h, Extends.refl _⟩⟩
+theorem Grows.trans {a b c : State ℝ} (h1 : Grows a b) (h2 : Grows b c) : Grows a c := by
+  refine ⟨h2.1.trans h1.1, fun old ho => ?_⟩
+  obtain ⟨mid, hm, e1⟩ := h1.2 old ho
+  obtain ⟨new, hn, e2⟩ := h2.2 mid hm
+  exact ⟨new, hn, e1.trans e2⟩
+
+theorem push_grows (st : State ℝ) (s : Scad ℝ) : Grows st (push st s) := by
+  refine ⟨rfl, fun old ho => ?_⟩
+  exact ⟨Scad.add old s, by simp [push, ho], Extends.item _ _ _ (Extends.refl _)⟩
+theorem pushGroup_grows (st : State ℝ) (s : Scad ℝ) : Grows st (pushGroup st s) := by
+  refine ⟨rfl, fun old ho => ?_⟩
+  exact ⟨union [old, s], by simp [pushGroup, ho], Extends.item _ _ _ (Extends.refl _)⟩
+
+theorem addLines3d_grows (st st' : State ℝ) (es : List (Pt3 ℝ × Pt3 ℝ)) (c : List Char)
+    (h : addLines3d st es c = some st') : Grows st st' := by
+  unfold addLines3d at h
+  cases hm : es.mapM (fun x => match x with | (a, b) => edgeMesh st a b) with
+  | none => simp [hm] at h
+  | some ms =>
+    simp only [hm, Option.bind_eq_bind, Option.bind_some, Option.pure_def, Option.some.injEq] at h
+    subst h; exact pushGroup_grows _ _
+theorem addLines2d_grows (st st' : State ℝ) (es : List (Pt2 ℝ × Pt2 ℝ)) (c : List Char)
+    (h : addLines2d st es c = some st') : Grows st st' := addLines3d_grows _ _ _ _ h
+
+theorem bind_some {β γ : Type} {o : Option β} {f : β → Option γ} {y : γ} (h : o.bind f = some y) :
+    ∃ x, o = some x ∧ f x = some y := by
+  cases o with
+  | none => simp at h
+  | some x => exact ⟨x, rfl, h⟩
+
+theorem addQuad2_grows (st st' : State ℝ) (s c e : Pt2 ℝ) (n : Nat)
+    (h : addQuad2 st s c e n = some st') : Grows st st' := by
+  unfold addQuad2 at h
+  simp only [Option.bind_eq_bind, Option.pure_def] at h
+  obtain ⟨s1, h1, h⟩ := bind_some h
+  obtain ⟨s2, h2, h⟩ := bind_some h
+  injection h with h; subst h
+  exact (pushGroup_grows _ _).trans ((addLines2d_grows _ _ _ _ h1).trans
+    ((addLines2d_grows _ _ _ _ h2).trans (push_grows _ _)))
+theorem addQuad3_grows (st st' : State ℝ) (s c e : Pt3 ℝ) (n : Nat)
+    (h : addQuad3 st s c e n = some st') : Grows st st' := by
+  unfold addQuad3 at h
+  simp only [Option.bind_eq_bind, Option.pure_def] at h
+  obtain ⟨s1, h1, h⟩ := bind_some h
+  obtain ⟨s2, h2, h⟩ := bind_some h
+  injection h with h; subst h
+  exact (pushGroup_grows _ _).trans ((addLines3d_grows _ _ _ _ h1).trans
+    ((addLines3d_grows _ _ _ _ h2).trans (push_grows _ _)))
+theorem addCubic2_grows (st st' : State ℝ) (s c1 c2 e : Pt2 ℝ) (n : Nat)
+    (h : addCubic2 st s c1 c2 e n = some st') : Grows st st' := by
+  unfold addCubic2 at h
+  simp only [Option.bind_eq_bind, Option.pure_def] at h
+  obtain ⟨s1, h1, h⟩ := bind_some h
+  obtain ⟨s2, h2, h⟩ := bind_some h
+  injection h with h; subst h
+  exact (pushGroup_grows _ _).trans ((addLines2d_grows _ _ _ _ h1).trans
+    ((addLines2d_grows _ _ _ _ h2).trans ((push_grows _ _).trans (push_grows _ _))))
+theorem addCubic3_grows (st st' : State ℝ) (s c1 c2 e : Pt3 ℝ) (n : Nat)
+    (h : addCubic3 st s c1 c2 e n = some st') : Grows st st' := by
+  unfold addCubic3 at h
+  simp only [Option.bind_eq_bind, Option.pure_def] at h
+  obtain ⟨s1, h1, h⟩ := bind_some h
+  obtain ⟨s2, h2, h⟩ := bind_some h
+  injection h with h; subst h
+  exact (pushGroup_grows _ _).trans ((addLines3d_grows _ _ _ _ h1).trans
+    ((addLines3d_grows _ _ _ _ h2).trans ((push_grows _ _).trans (push_grows _ _))))
+
+theorem foldlM_grows {β : Type} (f : State ℝ → β → Option (State ℝ))
+    (hf : ∀ st x st', f st x = some st' → Grows st st') :
+    ∀ (l : List β) (st st' : State ℝ), l.foldlM f st = some st' → Grows st st'
+  | [], st, st', h => by
+    simp only [List.foldlM_nil, Option.pure_def, Option.some.injEq] at h; subst h; exact Grows.refl _
+  | x :: xs, st, st', h => by
+    simp only [List.foldlM_cons, Option.bind_eq_bind] at h
+    obtain ⟨s1, h1, h⟩ := bind_some h
+    exact (hf _ _ _ h1).trans (foldlM_grows f hf xs s1 st' h)
+
+/-- **C18, one call.** Whatever the call and its arguments, the scene afterwards retains the whole
+previous scene and the viewer's constants. -/
+theorem step_grows (st st' : State ℝ) (op : Op ℝ) (h : step st op = some st') : Grows st st' := by
+  cases op with
+  | pt2 p c => simp only [step, Option.some.injEq] at h; subst h; exact push_grows _ _
+  | pt3 p c => simp only [step, Option.some.injEq] at h; subst h; exact push_grows _ _
+  | pt2s ps c => simp only [step, Option.some.injEq] at h; subst h; exact pushGroup_grows _ _
+  | pt3s ps c => simp only [step, Option.some.injEq] at h; subst h; exact pushGroup_grows _ _
+  | lines2d es c => exact addLines2d_grows _ _ _ _ h
+  | lines3d es c => exact addLines3d_grows _ _ _ _ h
+  | quad2 s c e n => exact addQuad2_grows _ _ _ _ _ _ h
+  | quad3 s c e n => exact addQuad3_grows _ _ _ _ _ _ h
+  | cubic2 s c1 c2 e n => exact addCubic2_grows _ _ _ _ _ _ _ h
+  | cubic3 s c1 c2 e n => exact addCubic3_grows _ _ _ _ _ _ _ h
+  | chain2 cs =>
+    exact foldlM_grows _ (fun st c st' hc => addCubic2_grows _ _ _ _ _ _ _ hc) cs st st' h
+  | chain3 cs =>
+    exact foldlM_grows _ (fun st c st' hc => addCubic3_grows _ _ _ _ _ _ _ hc) cs st st' h
+
+/-- **C18, histories.** After any sequence of calls continuing from any state, everything that was
+in the scene before is still there, in place. -/
+theorem history_grows (h : List (Op ℝ)) (st st' : State ℝ) (hr : h.foldlM step st = some st') :
+    Grows st st' :=
+  foldlM_grows step (fun a x b hx => step_grows a b x hx) h st st' hr
+
+/-- … in particular the scene after `h₁ ++ h₂` extends the scene after `h₁` -/
+theorem prefix_retained (pr er : ℝ) (seg : Nat) (h1 h2 : List (Op ℝ)) (st : State ℝ)
+    (hr : run pr er seg (h1 ++ h2) = some st) :
+    ∃ mid, run pr er seg h1 = some mid ∧ Grows mid st := by
+  unfold run at hr ⊢
+  rw [List.foldlM_append] at hr
+  obtain ⟨mid, hm, hr⟩ := bind_some hr
+  exact ⟨mid, hm, history_grows h2 mid st hr⟩
+
+/-- a non-empty history that succeeds leaves a scene: `into_scad` does not panic -/
+theorem step_scene (st st' : State ℝ) (op : Op ℝ) (hop2 : ∀ cs, op ≠ .chain2 cs) (hop3 : ∀ cs, op ≠ .chain3 cs)
+    (h : step st op = some st') : (intoScad st').isSome = true := by
+  cases op with
+  | pt2 p c => simp only [step, Option.some.injEq] at h; subst h; simp [intoScad, addPt2, push]
+  | pt3 p c => simp only [step, Option.some.injEq] at h; subst h; simp [intoScad, addPt3, push]
+  | pt2s ps c => simp only [step, Option.some.injEq] at h; subst h; simp [intoScad, addPt2s, pushGroup]
+  | pt3s ps c => simp only [step, Option.some.injEq] at h; subst h; simp [intoScad, addPt3s, pushGroup]
+  | lines2d es c =>
+    simp only [step, addLines2d, addLines3d, Option.bind_eq_bind, Option.pure_def] at h
+    obtain ⟨ms, _, h⟩ := bind_some h
+    injection h with h; subst h; simp [intoScad, pushGroup]
+  | lines3d es c =>
+    simp only [step, addLines3d, Option.bind_eq_bind, Option.pure_def] at h
+    obtain ⟨ms, _, h⟩ := bind_some h
+    injection h with h; subst h; simp [intoScad, pushGroup]
+  | quad2 s c e n =>
+    simp only [step, addQuad2, Option.bind_eq_bind, Option.pure_def] at h
+    obtain ⟨s1, _, h⟩ := bind_some h
+    obtain ⟨s2, _, h⟩ := bind_some h
+    injection h with h; subst h; simp [intoScad, addPt2, push]
+  | quad3 s c e n =>
+    simp only [step, addQuad3, Option.bind_eq_bind, Option.pure_def] at h
+    obtain ⟨s1, _, h⟩ := bind_some h
+    obtain ⟨s2, _, h⟩ := bind_some h
+    injection h with h; subst h; simp [intoScad, addPt3, push]
+  | cubic2 s c1 c2 e n =>
+    simp only [step, addCubic2, Option.bind_eq_bind, Option.pure_def] at h
+    obtain ⟨s1, _, h⟩ := bind_some h
+    obtain ⟨s2, _, h⟩ := bind_some h
+    injection h with h; subst h; simp [intoScad, addPt2, push]
+  | cubic3 s c1 c2 e n =>
+    simp only [step, addCubic3, Option.bind_eq_bind, Option.pure_def] at h
+    obtain ⟨s1, _, h⟩ := bind_some h
+    obtain ⟨s2, _, h⟩ := bind_some h
+    injection h with h; subst h; simp [intoScad, addPt3, push]
+  | chain2 cs => exact absurd rfl (hop2 cs)
+  | chain3 cs => exact absurd rfl (hop3 cs)
+
+/-! ### what each adder adds -/
+/-- the new scene of a single-item adder -/
+def withItem (st : State ℝ) (x : Scad ℝ) : Option (Scad ℝ) :=
+  some (match st.scad with | some old => Scad.add old x | none => x)
+def withGroup (st : State ℝ) (x : Scad ℝ) : Option (Scad ℝ) :=
+  some (match st.scad with | some old => union [old, x] | none => union [x])
+
+/-- a point: a sphere of the point radius (`$fn` = viewer segments) in the requested colour at the
+point -/
+theorem addPt3_item (st : State ℝ) (p : Pt3 ℝ) (c : List Char) :
+    (addPt3 st p c).scad = withItem st
+      (Scad.node (.translate ⟨p.x, p.y, p.z⟩)
+        [Scad.node (.color none (some c) none none)
+          [Scad.node (.sphere st.pointRadius none none (some st.segments)) []]]) := by
+  cases h : st.scad <;> simp [addPt3, push, withItem, translate, colorC, sphereFn, h]
+theorem addPt2_item (st : State ℝ) (p : Pt2 ℝ) (c : List Char) :
+    (addPt2 st p c).scad = withItem st
+      (Scad.node (.translate ⟨p.x, p.y, 0⟩)
+        [Scad.node (.color none (some c) none none)
+          [Scad.node (.sphere st.pointRadius none none (some st.segments)) []]]) := by
+  cases h : st.scad <;> simp [addPt2, push, withItem, translate, colorC, sphereFn, h]
+/-- a point list: one coloured group with one sphere per point, in order (also for the empty list) -/
+theorem addPt3s_item (st : State ℝ) (ps : List (Pt3 ℝ)) (c : List Char) :
+    (addPt3s st ps c).scad = withGroup st
+      (Scad.node (.color none (some c) none (some 1))
+        (ps.map fun p => Scad.node (.translate ⟨p.x, p.y, p.z⟩)
+          [Scad.node (.sphere st.pointRadius none none (some st.segments)) []])) := by
+  cases h : st.scad <;> simp [addPt3s, pushGroup, withGroup, translate, colorA, sphereFn, h]
+theorem addPt2s_item (st : State ℝ) (ps : List (Pt2 ℝ)) (c : List Char) :
+    (addPt2s st ps c).scad = withGroup st
+      (Scad.node (.color none (some c) none (some 1))
+        (ps.map fun p => Scad.node (.translate ⟨p.x, p.y, 0⟩)
+          [Scad.node (.sphere st.pointRadius none none (some st.segments)) []])) := by
+  cases h : st.scad <;> simp [addPt2s, pushGroup, withGroup, translate, colorA, sphereFn, h]
+theorem mapM_length {β γ : Type} (f : β → Option γ) : ∀ (l : List β) (ms : List γ),
+    l.mapM f = some ms → ms.length = l.length
+  | [], ms, h => by simp at h; subst h; rfl
+  | x :: xs, ms, h => by
+    simp only [List.mapM_cons, Option.bind_eq_bind, Option.pure_def] at h
+    obtain ⟨y, _, h⟩ := bind_some h
+    obtain ⟨ys, hys, h⟩ := bind_some h
+    injection h with h; subst h
+    simp [mapM_length f xs ys hys]
+
+/-- an edge list: one coloured group with one edge mesh per edge, in order -/
+theorem addLines3d_item (st st' : State ℝ) (es : List (Pt3 ℝ × Pt3 ℝ)) (c : List Char)
+    (h : addLines3d st es c = some st') :
+    ∃ meshes, es.mapM (fun e => edgeMesh st e.1 e.2) = some meshes ∧ meshes.length = es.length ∧
+      st'.scad = withGroup st (Scad.node (.color none (some c) none (some 1)) meshes) := by
+  unfold addLines3d at h
+  simp only [Option.bind_eq_bind, Option.pure_def] at h
+  obtain ⟨ms, hm, h⟩ := bind_some h
+  injection h with h; subst h
+  refine ⟨ms, hm, ?_, by cases h : st.scad <;> simp [pushGroup, withGroup, colorA, h]⟩
+  exact mapM_length _ es ms hm
 
 end ScadVerif.C18
